@@ -57,3 +57,17 @@ Lemma c09_diag_accepted : forall ace ip6 psl c ic r pre,
 Proof.
   intros ace ip6 psl c ic r pre Hacc. apply debug_keeps_preflight_success. eapply accepted_acah_rendered; exact Hacc.
 Qed.
+
+(* C19, count clause: iterating over the error returned by validation yields exactly the violations *)
+Require Import Model.CfgErrors Proofs.CfgErrorsP Proofs.ValidateP.
+Lemma all_yields_the_violations : forall ace ip6 psl c e,
+  new_internal_config ace ip6 psl c = inr e ->
+  yielded e (-1) = (violations ace ip6 psl c, 0%Z) /\
+  length (fst (yielded e (-1))) = length (violations ace ip6 psl c).
+Proof.
+  intros ace ip6 psl c e He.
+  pose proof (validate_flatten ace ip6 psl c) as H. rewrite He in H. destruct H as [Hf _].
+  assert (Hy : yielded e (-1) = (violations ace ip6 psl c, 0%Z)).
+  { rewrite yielded_spec by lia. simpl. rewrite Hf. reflexivity. }
+  split; [exact Hy | rewrite Hy; reflexivity].
+Qed.
